@@ -1,5 +1,6 @@
 import Postcard.Props.C10
 import Postcard.Props.EndToEnd
+import Postcard.Props.C10Flavor
 -- property theorems of C10: every one must depend only on propext / Classical.choice / Quot.sound
 #print axioms Postcard.crc_frame
 #print axioms Postcard.crc_frame_serialize
@@ -23,3 +24,8 @@ import Postcard.Props.EndToEnd
 #print axioms Postcard.payload_burst_rejected_enc
 #print axioms Postcard.to_slice_crc_then_from_bytes_crc
 #print axioms Postcard.to_hvec_crc_then_from_bytes_crc
+#print axioms Postcard.CrcDe.sim
+#print axioms Postcard.crcDe_digest_covers_consumed
+#print axioms Postcard.takeFromBytesCrcG_eq
+#print axioms Postcard.fromBytesCrcG_eq
+#print axioms Postcard.crc_sound_flavor
